@@ -40,11 +40,13 @@ U-O : shared 800.0 0.35
 U-U : >0 as.buck 500.0 0.4 2.0 >3.0 as.constant 0.25 >=3.5 as.zero
 Zr-O : as.zbl 40 8
 Zr-Zr : as.zbl 40 40
+Th-O : spline(as.bornmayer 1200.0 0.3 >=1.0 exp_spline >=2.0 as.buck 0.0 1.0 30.0)
+Th-Th : as.buck4 1500.0 0.25 25.0 1.0 1.6 2.2
 
 [Potential-Form]
 shared(r, A, rho) = A*exp(-r/rho) - inner(r, 2.0*rho) + as.buck(r, 10.0, rho, 1.0)
 inner(r, s) = s/r^2
-""", [['pair', 0, 1.0], ['pair', 1, 1.0], ['pair', 2, 3.0], ['pair', 2, 5.0], ['pair', 2, 3.5], ['pair', 2, 3.2], ['force', 3, 0.5], ['pair', 4, 0.7], ['force', 4, 0.7]])
+""", [['pair', 0, 1.0], ['pair', 1, 1.0], ['pair', 2, 3.0], ['pair', 2, 5.0], ['pair', 2, 3.5], ['pair', 2, 3.2], ['force', 3, 0.5], ['pair', 4, 0.7], ['force', 4, 0.7], ['pair', 5, 1.5], ['pair', 6, 1.3]])
 MODELS['pairB'] = ("""[Tabulation]
 target : LAMMPS
 nr : 5
@@ -260,6 +262,11 @@ def cases(tier):
         for seed in ('0', '1', '2', '3', '5', '8', '13', '21', '34', 'random'):
             out.append(dict(kind='hashseed', model=n, seed=seed))
     out.append(dict(kind='clock', model='excelP'))
+    # process environment: the interpreter's optimisation level (python -O / -OO strip assert statements and docstrings) and an embedding
+    # application that configured logging at DEBUG level before importing the library
+    for n in NAMES:
+        for env in PROCENVS:
+            out.append(dict(kind='procenv', model=n, env=env))
     # Python API: a composed potential that was already evaluated is used as an operand of a further composition (and evaluated again)
     from . import C07
     from ..refmodel.expr import form as _form
@@ -317,6 +324,7 @@ def run_history(case):
     viol = []
     states = []
     warm = {}
+    g0 = seams.global_state()
     for step, op in enumerate(case['ops']):
         name = op[1]
         if op[0] == 'B':
@@ -336,10 +344,21 @@ def run_history(case):
                 viol.append(dict(sig='output-depends-on-history', msg='history %s: the bytes written for model %s differ from those of a fresh process (%d vs %d bytes; first difference at %d)'
                                  % (describe(case['ops']), name, len(got), len(ref[name]['bytes']), first_diff(got, ref[name]['bytes'])), detail={}))
         states.append(','.join('%s%d' % (n, warm[n]) for n in sorted(handles)))
+        gd = seams.global_state_diff(g0, seams.global_state())
+        if gd:
+            viol.append(dict(sig='process-state-changed:' + gd[0].split(':')[0], msg='history %s: after %s the process-wide state differs from before the history (%s): unrelated code that runs '
+                             'afterwards in this process behaves differently' % (describe(case['ops']), describe([op]), '; '.join(gd)), detail={}))
+            _restore_global_state(g0)
         if viol:
             break
     return dict(outcome='ok:history:%d' % len(case['ops']) if not viol else 'violation', nontrivial=len(set(o[1] for o in case['ops'])) >= 2 or len(case['ops']) >= 3,
                 evals=len(case['ops']), violations=viol, states=sorted(set(states)), transitions=len(case['ops']), traces=1)
+
+
+def _restore_global_state(g0):
+    import numpy
+    numpy.seterr(**dict(g0['numpy_errstate']))
+    sys.setrecursionlimit(g0['recursion_limit'])
 
 
 def first_diff(a, b):
@@ -376,6 +395,26 @@ def run_hashseed(case):
         elif got['probes'] != ref[name]['probes']:
             viol.append(dict(sig='value-depends-on-hash-seed', msg='model %s: PYTHONHASHSEED=%s gives probe values %r, seed 0 gives %r' % (name, case['seed'], got['probes'], ref[name]['probes']), detail={}))
     return dict(outcome='ok:hashseed' if not viol else 'violation', nontrivial=True, evals=1, violations=viol, states=['hashseed:%s' % name], transitions=1, traces=1)
+
+
+PROCENVS = [dict(optimize=1), dict(optimize=2), dict(logging_level='DEBUG'), dict(optimize=1, logging_level='DEBUG'), dict(logging_level='ERROR')]
+
+
+def run_procenv(case):
+    ref = refs()
+    name, env = case['model'], case['env']
+    viol = []
+    rc, out, err = seams.fresh_process([os.path.join(boot.VERIF, 'tools', 'c12_ref.py'), name], hashseed=0, **env)
+    if rc != 0:
+        viol.append(dict(sig='fresh-process-failed', msg='model %s in a process with %r: exit %d: %s' % (name, env, rc, err.decode()[-500:]), detail={}))
+    else:
+        got = json.loads(out.decode())
+        if got['bytes'] != ref[name]['bytes']:
+            viol.append(dict(sig='output-depends-on-process-environment', msg='model %s: a process with %r gives different bytes than a plain one (first difference at %d): %r vs %r'
+                             % (name, env, first_diff(got['bytes'], ref[name]['bytes']), got['bytes'][:200], ref[name]['bytes'][:200]), detail={}))
+        elif got['probes'] != ref[name]['probes']:
+            viol.append(dict(sig='value-depends-on-process-environment', msg='model %s: a process with %r gives probe values %r, a plain one %r' % (name, env, got['probes'], ref[name]['probes']), detail={}))
+    return dict(outcome='ok:procenv' if not viol else 'violation', nontrivial=True, evals=1, violations=viol, states=['procenv:%s' % name], transitions=1, traces=1)
 
 
 def run_clock(case):
@@ -764,4 +803,4 @@ def run_case(case):
         return res
     if case['kind'] == 'hashseed-cli':
         return run_hashseed_cli(case)
-    return dict(history=run_history, setorder=run_setorder, hashseed=run_hashseed, clock=run_clock)[case['kind']](case)
+    return dict(history=run_history, setorder=run_setorder, hashseed=run_hashseed, clock=run_clock, procenv=run_procenv)[case['kind']](case)
